@@ -152,7 +152,14 @@ func reps() int {
 		if *flagReps > 25 {
 			return *flagReps
 		}
+		if repsAfterFailure > 0 {
+			return repsAfterFailure
+		}
 		return 25
 	}
 	return *flagReps
 }
+
+// repsAfterFailure overrides the default 25 (virtual-time runs are far more
+// repeatable than real-time ones, and a livelocked candidate is expensive).
+var repsAfterFailure int
